@@ -15,6 +15,7 @@ def check(ctx):
     plots.string_arrays_wide_enough(ctx, 'C20-R8')
     plots.one_figure_per_plot(ctx, 'C20-R9')
     plots.optional_arguments_guarded(ctx, 'C20-R10')
+    plots.labels_are_not_positions(ctx, 'C20-R11')
     ctx.undecided += ['totality of the matplotlib calls themselves; exact file contents',
                       'that an exception inside the plotting code still closes the figure']
     ctx.assumptions += ['plt.style.context / rc_context restore rcParams on exit, including on exceptions']
